@@ -25,9 +25,9 @@ from harness import core
 
 CTORS = ["if_", "loop", "scan", "sequence_map"]
 NODE_CLASSES = {"_If": "if_", "_Loop": "loop", "_Scan": "scan", "_SequenceMap": "sequence_map"}
-STEPS_FULL = ["build", "infer", "build", "valueProp", "to_onnx", "inspect", "copy", "pickle", "graphMethod",
+STEPS_FULL = ["build", "infer", "build_drop", "valueProp", "to_onnx", "inspect", "copy", "pickle", "graphMethod",
               "varMethod", "inline", "build"]
-MODEL_STEP = {"build": "build", "to_onnx": "build", "infer": "infer", "valueProp": "valueProp",
+MODEL_STEP = {"build": "build", "build_drop": "build", "to_onnx": "build", "infer": "infer", "valueProp": "valueProp",
               "inspect": "inspect", "copy": "copy", "pickle": "copy", "graphMethod": "graphMethod",
               "varMethod": "varMethod", "inline": "inline"}
 
@@ -651,6 +651,13 @@ def run_real(env: Env, case, steps=()):
                                 raise
                             # unknown shapes among the inputs / outputs: the non-concrete build
                             env.graph.results(**outd).with_arguments(*ins.values()).to_onnx_model(concrete=False)
+                    elif st == "build_drop" and outd:
+                        try:
+                            env.spox.build(ins, outd, drop_unused_inputs=True)
+                        except ValueError as e:
+                            if "does not specify the shape" not in str(e):
+                                raise
+                            env.graph.results(**outd).to_onnx_model(concrete=False)
                     elif st == "to_onnx" and outd:
                         env.graph.results(**outd).with_arguments(*ins.values()).to_onnx()
                     elif st == "infer" and node is not None:
@@ -695,7 +702,7 @@ def run_real(env: Env, case, steps=()):
                             again = env.spox.inline(mp)(**ins)
                             env.spox.build(ins, {k: v for k, v in again.items()})
             except Exception as e:  # noqa: BLE001
-                obs["step_errors"].append((st, type(e).__name__))
+                obs["step_errors"].append((st, type(e).__name__, str(e)[:200]))
             obs["steps"].append((st, {r: counters.get(r, 0) - before.get(r, 0) for r in case["cbs"]}))
     obs["counts"] = dict(counters)
     return obs
@@ -1266,7 +1273,9 @@ def gen_cases(ck, info):
 
 # ----------------------------------------------------------------------------- onnxruntime programs
 ORT_PROGS = ["loop_uses_args", "scan_rank1_state", "scan_reverse_out_axis", "scan_rank2_state_two_scans", "scan_two_states",
-             "seqmap_tensor_extra", "seqmap_seq_extra", "if_no_args"]
+             "seqmap_tensor_extra", "seqmap_seq_extra", "if_no_args",
+             # >= 11 arguments AND >= 11 results, pairwise different: result i must end up at output i
+             "loop_many_results", "scan_many_results", "if_many_results"]
 
 
 def run_ort_prog(env: Env, mod_name, prog, seed):
@@ -1309,6 +1318,72 @@ def run_ort_prog(env: Env, mod_name, prog, seed):
                     vs = vs + np.float32(it)
                     av = av + np.float32(it)
                 expect = [vs, av, np.stack(scs)]
+            elif prog == "loop_many_results":
+                k = int(rng.integers(11, 14))
+                xs = [arg(Tn(np.float32, (j + 1,))) for j in range(k)]
+                M = arg(Tn(np.int64, ()))
+
+                def body(i, c, *vs):
+                    calls.append(1)
+                    return [c] + [op.add(v, op.const(np.float32(j + 1))) for j, v in enumerate(vs)] + [op.mul(vs[0], op.const(np.float32(2)))]
+
+                res = op.loop(M, v_initial=xs, body=body)
+                fin = [op.reshape(v, op.const(np.array([j + 1], np.int64))) for j, v in enumerate(res[:k])]
+                sc = op.reshape(res[k], op.const(np.array([-1, 1], np.int64)))
+                ins = {f"x{j}": x for j, x in enumerate(xs)}
+                ins["M"] = M
+                outs = {f"v{j}": v for j, v in enumerate(fin)}
+                outs["sc"] = sc
+                m = int(rng.integers(1, 4))
+                xv = [rng.standard_normal(j + 1).astype(np.float32) for j in range(k)]
+                feeds = {f"x{j}": v for j, v in enumerate(xv)}
+                feeds["M"] = np.array(m, np.int64)
+                expect = [v + np.float32(m * (j + 1)) for j, v in enumerate(xv)]
+                expect.append(np.stack([(xv[0] + np.float32(it)) * 2 for it in range(m)]))
+            elif prog == "scan_many_results":
+                k = int(rng.integers(11, 14))
+                t = int(rng.integers(1, 4))
+                sts = [arg(Tn(np.float32, (j % 3 + 1,))) for j in range(k)]
+                xs = arg(Tn(np.float32, (t,)))
+
+                def body(*a):
+                    calls.append(1)
+                    x = a[-1]
+                    return [op.add(s_, op.mul(x, op.const(np.float32(j + 1)))) for j, s_ in enumerate(a[:-1])] + [op.neg(x)]
+
+                res = op.scan(sts + [xs], body=body, num_scan_inputs=1)
+                ins = {f"s{j}": v for j, v in enumerate(sts)}
+                ins["xs"] = xs
+                outs = {f"f{j}": v for j, v in enumerate(res)}
+                sv = [rng.standard_normal(j % 3 + 1).astype(np.float32) for j in range(k)]
+                xv = rng.standard_normal(t).astype(np.float32)
+                feeds = {f"s{j}": v for j, v in enumerate(sv)}
+                feeds["xs"] = xv
+                expect = []
+                for j, v in enumerate(sv):
+                    cur = v.copy()
+                    for it in range(t):
+                        cur = cur + xv[it] * np.float32(j + 1)
+                    expect.append(cur)
+                expect.append(-xv)
+            elif prog == "if_many_results":
+                k = int(rng.integers(11, 14))
+                x = arg(Tn(np.float32, (2,)))
+                b = arg(Tn(np.bool_, ()))
+
+                def then_b():
+                    calls.append(1)
+                    return (op.add(x, op.const(np.float32(j))) for j in range(k))
+
+                def else_b():
+                    calls.append(1)
+                    return [op.sub(x, op.const(np.float32(j))) for j in range(k)]
+
+                res = op.if_(b, then_branch=then_b, else_branch=else_b)
+                xv = rng.standard_normal(2).astype(np.float32)
+                bv = bool(rng.integers(0, 2))
+                ins, outs, feeds = {"x": x, "b": b}, {f"o{j}": v for j, v in enumerate(res)}, {"x": xv, "b": np.array(bv)}
+                expect = [xv + np.float32(j) if bv else xv - np.float32(j) for j in range(k)]
             elif prog == "scan_reverse_out_axis":
                 # input scanned in reverse, scan output stacked along axis 1: body argument types unchanged
                 t = int(rng.integers(2, 5))
@@ -1455,7 +1530,68 @@ def run_ort_prog(env: Env, mod_name, prog, seed):
 
 
 def prog_ctor(prog):
-    return {"loop": "loop", "scan": "scan", "seqm": "sequence_map", "if_n": "if_"}[prog[:4]]
+    return {"loop": "loop", "scan": "scan", "seqm": "sequence_map", "if_n": "if_", "if_m": "if_"}[prog[:4]]
+
+
+# ----------------------------------------------------------------------------- nested control flow
+def run_nested(ck: core.Check, env: Env):
+    import sys
+
+    from harness import lib_c19nest as nest
+
+    P = sys.modules[__name__]
+    rng = ck.rng
+    mods = [m for m in sorted(env.mods, key=lambda q: int(q[1:])) if all(hasattr(env.mods[m], c) for c in CTORS)]
+    stats = {"programs": 0, "constructed": 0, "rejected": {}, "depth": {}, "bodies": 0, "step_errors": {}, "mismatches": 0,
+             "pairs": {}, "unobservable": {}}
+    if not mods:
+        return stats
+    progs = nest.gen_programs(rng, P, mods, ck.pick(45, 600), ck.pick(15, 250))
+    try:
+        models = ck.driver().ask_many("C19", [nest.model_request(p_, nest.STEPS) for p_ in progs])
+    except Exception as e:  # noqa: BLE001
+        ck.broken("correspondence", "C19 driver (nested)", str(e))
+        models = [None] * len(progs)
+    if len(models) != len(progs):
+        ck.broken("correspondence", "C19 driver (nested)", f"{len(models)} answers for {len(progs)} requests")
+        models = [None] * len(progs)
+    for prog, m in zip(progs, models):
+        try:
+            obs = nest.run_program(env, prog)
+        except Exception as e:  # noqa: BLE001
+            sig = f"{type(e).__name__}: {str(e)[:120]}"
+            stats["unobservable"][sig] = stats["unobservable"].get(sig, 0) + 1
+            if stats["unobservable"][sig] == 1 and len(stats["unobservable"]) <= 3:
+                ck.broken("correspondence", "C19 nested program not observable", f"{sig}\n{core.fmt_exc()[-600:]}")
+            continue
+        bodies = list(nest.all_bodies(prog["call"]))
+        depth = max(d for *_x, d, _p in bodies)
+        ck.count(("nested", prog["mod"], repr(nest.model_call(prog["call"]))))
+        stats["programs"] += 1
+        stats["bodies"] += len(bodies)
+        stats["depth"][depth] = stats["depth"].get(depth, 0) + 1
+        for b, call, role, d, parent in bodies:
+            if parent is not None:
+                pc = next(c for bb, c, *_r in bodies if bb["id"] == parent)
+                k = f"{pc['ctor']}>{call['ctor']}"
+                stats["pairs"][k] = stats["pairs"].get(k, 0) + 1
+        if obs["result"][0] == "ok":
+            stats["constructed"] += 1
+        else:
+            k = f"{prog['call']['ctor']}:{obs['result'][1]}"
+            stats["rejected"][k] = stats["rejected"].get(k, 0) + 1
+        for st, en, _msg in obs["step_errors"]:
+            stats["step_errors"][f"{st}:{en}"] = stats["step_errors"].get(f"{st}:{en}", 0) + 1
+        for k, what in nest.judge(P, prog, obs):
+            ck.failure(k, what, {"kind": "nested", "prog": prog})
+        if m is not None:
+            d_ = nest.compare(prog, obs, m, nest.STEPS)
+            if d_:
+                stats["mismatches"] += 1
+                if stats["mismatches"] <= 3:
+                    ck.broken("correspondence", "C19 model-vs-implementation (nested)", f"mod={prog['mod']} call={nest.model_call(prog['call'])} :: {d_}")
+    ck.cov["nested"] = stats
+    return stats
 
 
 # ----------------------------------------------------------------------------- run
@@ -1571,8 +1707,10 @@ def _run(ck: core.Check, env: Env, info):
         stats["ambient"][ak] = stats["ambient"].get(ak, 0) + 1
         stats["prescribed"] += int(prescription(case) is not None)
         stats["with_steps"] += int(bool(obs["steps"]))
-        for st, en in obs["step_errors"]:
+        for st, en, msg in obs["step_errors"]:
             stats["step_errors"][f"{st}:{en}"] = stats["step_errors"].get(f"{st}:{en}", 0) + 1
+            if len(stats.setdefault("step_error_samples", [])) < 3:
+                stats["step_error_samples"].append({"step": st, "error": f"{en}: {msg}", "case": case})
         for c in case["cbs"].values():
             stats["behaviours"][c["beh"]] = stats["behaviours"].get(c["beh"], 0) + 1
             if c["beh"] == "hasNonVar":
@@ -1593,6 +1731,8 @@ def _run(ck: core.Check, env: Env, info):
                 mismatches += 1
                 if mismatches <= 3:
                     ck.broken("correspondence", "C19 model-vs-implementation", f"case={case} :: {d}")
+    # ---- nested control flow: callbacks that call control-flow constructors themselves (depth 2-3)
+    nstats = run_nested(ck, env)
     # ---- onnxruntime: bodies that use their arguments
     n_ort = 0
     for mod in env.mods:
@@ -1646,6 +1786,20 @@ def replay(ck: core.Check, doc) -> bool:
     env = Env()
     key = doc.get("key")
     known = {f["key"] for f in core.load_findings() if f["property"] == "C19" and f.get("status") == "known"}
+    if case.get("kind") == "nested":
+        import sys
+
+        from harness import lib_c19nest as nest
+
+        P = sys.modules[__name__]
+        hit = False
+        for _rep in range(2):
+            obs = nest.run_program(env, case["prog"])
+            for k, what in nest.judge(P, case["prog"], obs):
+                mine = (k == key) if key else (k not in known)
+                print(("* " if mine else "  ") + f"{k}: {what}")
+                hit = hit or mine
+        return hit
     if case.get("kind") == "ort":
         r = run_ort_prog(env, case["mod"], case["prog"], case["seed"])
         if r is not None:
